@@ -132,6 +132,23 @@ static Verdict run_c17(const Case &c)
     out_path = (order / 16) % 3 == 0 ? "no-such-dir/100%new%s%n.out" : "no-such-dir/out.bin";
   else if (out_k == "long")
     out_path = longpath("out.bin", plong);
+  // the output path (given with -o, or the default name of -e) already names a file: longer than what this run
+  // writes, or shorter. The tool is documented to write the result there; whatever was there before is not part of it.
+  long pre = c.geti("preexist");
+  if (pre && modes.size() == 1)
+  {
+    std::string target;
+    if (out_k == "ok")
+      target = out_path;
+    else if (out_k == "none" && modes == "e" && (in_k == "plain" || in_k == "wenc" || in_k == "tampered"))
+      target = in_path + ".wenc";
+    if (!target.empty())
+    {
+      bytes old = expand(0x01d + (uint64_t)pre, pre == 1 ? wenc.size() + P.size() + 300 + (size_t)(order % 5000) : (size_t)(order % 40), 0);
+      write_file(dir + "/" + target, std::string(old.begin(), old.end()));
+      v.classes.push_back(pre == 1 ? "output_path_holds_a_longer_file" : "output_path_holds_a_shorter_file");
+    }
+  }
   std::string right = ref::b64_encode(key.data(), 16);
   std::string key_s;
   bool key_valid = false, key_right = false;
@@ -537,6 +554,8 @@ static Case gen_c17()
   c.seti("followup", g::coin(40) ? 1 : 0);
   if (g::coin(12))
     c.seti("dup", g::range(1, 4));
+  if (g::coin(15))
+    c.seti("preexist", g::range(1, 3));
   return c;
 }
 
@@ -611,6 +630,14 @@ static void fixed_c17(Ctx &ctx)
       mk({{"modes", m2}, {"input", odd}, {"key", "right"}, {"output", "ok"}});
   mk({{"modes", "V"}, {"input", "none"}});
   mk({{"modes", "h"}, {"input", "none"}});
+  // the output path already names a longer / shorter file
+  for (const char *pe : {"1", "2"})
+  {
+    mk({{"preexist", pe}});
+    mk({{"preexist", pe}, {"output", "ok"}, {"key", "right"}});
+    mk({{"modes", "d"}, {"input", "wenc"}, {"key", "right"}, {"output", "ok"}, {"preexist", pe}});
+    mk({{"modes", "d"}, {"input", "wenc"}, {"key", "right"}, {"output", "ok"}, {"preexist", pe}, {"plen", "0"}});
+  }
 }
 
 static PropReg reg({"C17", gen_c17, run_c17, fixed_c17, 8000, 300000, 100, "plain"});
